@@ -114,3 +114,9 @@ Definition json_string (s : bytes) : bytes := [34] ++ flat_map json_esc s ++ [34
 Definition text_bools (l : list bool) : bytes := [91] ++ join [32] (map text_bool l) ++ [93].   (* fmt.Sprint([]bool) *)
 Definition text_ints (l : list N) : bytes := [91] ++ join [44] (map dec_i64 l) ++ [93].         (* json.Marshal([]int64) *)
 Definition text_strs (l : list bytes) : bytes := [91] ++ join [44] (map json_string l) ++ [93]. (* json.Marshal([]string) *)
+
+(** ** Iterator call sequences (iterator.go): the calls a user can make and what each returns. *)
+Definition zero_kv : kv := ([], VInvalid).   (* KeyValue{} *)
+Inductive iop := INext | IAttr | IIndexed | ILen | IToSlice.
+Inductive iobs :=
+| ONext (b : bool) | OAttr (x : kv) | OIndexed (i : Z) (x : kv) | OLen (n : N) | OSlice (l : list kv).
